@@ -81,6 +81,15 @@ def run(ctx):
         use_bounds = rng.random() < 0.5 and meth != 'complex'
         lo, hi = x - np.array([rng.choice([0.0, 0.5, 1.0]) for _ in range(n)]), x + np.array([rng.choice([0.0, 0.5, 1.0]) for _ in range(n)])
         hi = np.where(hi == lo, lo + 1.0, hi)
+        # one-sided boxes: all lower (or all upper, or a random subset of the) bounds infinite
+        side = rng.choice(['two', 'two', 'upper-only', 'lower-only', 'mixed'])
+        if side == 'upper-only':
+            lo = np.full(n, -np.inf)
+        elif side == 'lower-only':
+            hi = np.full(n, np.inf)
+        elif side == 'mixed':
+            lo = np.where([rng.random() < 0.4 for _ in range(n)], -np.inf, lo)
+            hi = np.where([rng.random() < 0.4 for _ in range(n)], np.inf, hi)
         pts = []
         scale_arg = rng.uniform(1, 2)
 
